@@ -11,6 +11,7 @@ import (
 	"encoding/json"
 	"fmt"
 	"math/big"
+	"os"
 	"sort"
 	"strings"
 
@@ -21,6 +22,7 @@ import (
 	"github.com/LemoFoundationLtd/lemochain-core/chain/transaction"
 	"github.com/LemoFoundationLtd/lemochain-core/chain/types"
 	"github.com/LemoFoundationLtd/lemochain-core/common"
+	"github.com/LemoFoundationLtd/lemochain-core/common/log"
 )
 
 // nodeIDOf returns profile[nodeID] of `a` in the view of block `h` ("" = none).
@@ -231,4 +233,107 @@ func sortedLabels(l *ledger, as []common.Address) []int {
 	}
 	sort.Ints(out)
 	return out
+}
+
+// ---- c01refund: does a reward block's validity depend on which confirmations a node has seen? ----------------
+//
+// refundCandidateDeposit refunds the candidates LoadRefundCandidates lists, and that list is drawn from
+// ChainDatabase.GetAllCandidates = the candidate cache of the node's STABLE state (store Context), not from the
+// parent block's view. A candidate whose registration block is not yet stable ON THIS NODE is not refunded.
+// Scenario (TermDuration 9, InterimDuration 4, first reward block 14; nodes A = miner, B = validator hold the same
+// blocks 1..13): X registers in block 11 and unregisters in block 12 (interim period: refund postponed to block 14).
+//   variant "both":            both nodes have every confirmation                  -> control, must be accepted
+//   variant "validator-behind": B has the blocks but confirmations only up to 10  -> B re-executes A's honest block 14
+//   variant "miner-behind":     A has confirmations only up to 10, B all          -> A mines 14 without the refund
+// NOT registered in props/*.json (a new finding makes ./check print VIOLATION until it is listed).
+func init() { subs["c01refund"] = c01refund }
+
+func c01refund(c *Ctx) {
+	if os.Getenv("HX_LOG") != "" {
+		log.Setup(log.LevelError, false, true)
+		defer log.Setup(log.LevelCrit, false, false)
+	}
+	for _, variant := range []string{"both", "validator-behind", "miner-behind"} {
+		c01refundRound(c, variant)
+	}
+}
+
+func c01refundRound(c *Ctx, variant string) {
+	oldMin, oldT, oldI := params.MinCandidateDeposit, params.TermDuration, params.InterimDuration
+	params.MinCandidateDeposit, params.TermDuration, params.InterimDuration = lemo(1000), 9, 4
+	defer func() { params.MinCandidateDeposit, params.TermDuration, params.InterimDuration = oldMin, oldT, oldI }()
+	w := NewWorld(3, 1700000000, 10000)
+	a, b := w.NewNode(3), w.NewNode(3)
+	defer a.Close()
+	defer b.Close()
+	x := detKey("c01refund-x")
+	t := w.GenesisT + 10
+	parent := a.BC.CurrentBlock()
+	confirm := func(n *Node, blk *types.Block) {
+		var sigs []types.SignData
+		for _, k := range w.DeputyKeys {
+			if keyAddr(k) != blk.MinerAddress() {
+				sigs = append(sigs, Confirm(blk, k))
+			}
+		}
+		n.BC.InsertConfirms(blk.Height(), blk.Hash(), sigs)
+	}
+	for h := uint32(1); h <= 13; h++ {
+		t += 7
+		var txs types.Transactions
+		opt := TxOpt{Exp: uint64(t) + 600, Msg: fmt.Sprintf("r%d", h)}
+		switch h {
+		case 1:
+			txs = append(txs, txTransfer(w.FounderKey, keyAddr(x), lemo(3000), opt))
+		case 11:
+			txs = append(txs, txRegister(x, lemo(1000), detKey("c01refund-x-node"), false, nil, opt))
+		case 12:
+			txs = append(txs, txRegister(x, nil, detKey("c01refund-x-node"), true, nil, opt))
+		}
+		blk, _, err := a.Build(parent, t, txs, nil)
+		if err != nil || len(blk.Txs) != len(txs) {
+			panic(fmt.Sprintf("c01refund: setup block %d: err=%v", h, err))
+		}
+		if err := a.Insert(CloneBlock(blk)); err != nil {
+			panic(fmt.Sprintf("c01refund: node A rejects its own block %d: %v", h, err))
+		}
+		if err := b.Insert(CloneBlock(blk)); err != nil {
+			panic(fmt.Sprintf("c01refund: node B rejects setup block %d: %v", h, err))
+		}
+		if h <= 10 || variant != "miner-behind" {
+			confirm(a, blk)
+		}
+		if h <= 10 || variant != "validator-behind" {
+			confirm(b, blk)
+		}
+		parent = blk
+	}
+	if a.BC.CurrentBlock().Hash() != b.BC.CurrentBlock().Hash() {
+		panic("c01refund: nodes do not hold the same head")
+	}
+	sa, sb := a.BC.StableBlock().Height(), b.BC.StableBlock().Height()
+	t += 7
+	blk, _, err := a.Build(parent, t, nil, nil)
+	if err != nil {
+		panic(fmt.Sprintf("c01refund: build of the reward block failed: %v", err))
+	}
+	refunded := false
+	for _, cl := range blk.ChangeLogs {
+		if cl.Address == keyAddr(x) && cl.LogType == account.BalanceLog {
+			refunded = true
+		}
+	}
+	c.Count(fmt.Sprintf("refund:%s:miner-refunds=%v", variant, refunded))
+	errA := a.Insert(CloneBlock(blk))
+	errB := b.Insert(CloneBlock(blk))
+	c.Op(fmt.Sprintf("c01refund %s stableA=%d stableB=%d", variant, sa, sb), fmt.Sprintf("minerRefundsX=%v A=%v B=%v", refunded, errA, errB))
+	if errA != nil || errB != nil {
+		c.Count("refund:" + variant + ":honest-reward-block-rejected")
+		c.Fail("c01/honest-block-rejected/refund-list-from-locally-stable-candidates",
+			fmt.Sprintf("variant %s: nodes A and B hold the same blocks 1..13 (head %s); X registered in block 11 and unregistered in block 12 (interim period, refund postponed to reward block 14); stable height A=%d B=%d; A mines reward block 14 (X refunded in it: %v); own node: %v, other node: %v",
+				variant, parent.Hash().Prefix(), sa, sb, refunded, errA, errB),
+			map[string]interface{}{"variant": variant, "stableA": sa, "stableB": sb, "minerRefunds": refunded})
+	} else {
+		c.Count("refund:" + variant + ":accepted")
+	}
 }
